@@ -1,6 +1,7 @@
 import ChythonModel.Model.C16Patcher
 import ChythonModel.Spec.C16Deleted
 import ChythonModel.Proofs.C16Deleted
+import ChythonModel.Proofs.C16Patcher
 /-!
 # C16 — template application edits exactly what the template names
 
@@ -10,7 +11,7 @@ Theorems about the executable model `Model/C16Patcher.lean` (the functions `Driv
 `_to_delete` **in any iteration order**, the neighbour lists of `g` are in any (dict) order.
 -/
 namespace ChythonModel.Props.C16
-open ChythonModel.Model ChythonModel.Model.C16 ChythonModel.Spec.C16 ChythonModel.Proofs.C16
+open ChythonModel.Model ChythonModel.Model.C16 ChythonModel.Spec.C16 ChythonModel.Proofs.C16 ChythonModel.Proofs.C16P
 
 /-- **get_deleted_exact** (full statement, proved). For every undirected graph, every match and every iteration order of
 the deleted set and of the neighbour dicts: the atoms `_get_deleted` returns are exactly the matched atoms absent from
@@ -104,5 +105,250 @@ example : getDeleted witnessGraph [102] [(101, 1), (102, 2)] = .ok [2] := by
   simp [getDeleted, mapAll, outerLoop, visitNbrs, visitNbr, dfs, List.lookup, remainOf, witnessGraph]
 example : getDeleted [(1, [2]), (2, [1, 3]), (3, [2, 4]), (4, [3])] [102] [(101, 1), (102, 2)] = .ok [2, 4, 3] := by
   simp [getDeleted, mapAll, outerLoop, visitNbrs, visitNbr, dfs, List.lookup, remainOf]
+
+
+/-! ## `_patcher`
+
+`patcher s t td mp` is the model of `BaseReactor._patcher(structure, mapping)` (without stereo and `fix_rings`);
+`td` is the template's `_to_delete`. `p.deleted` = result of `_get_deleted`, `p.patchedIds` = numbers of the atoms created
+from the replacement (`patched_atoms`), `p.mapping` = the match extended by the new atoms, `p.mol` = the product. -/
+
+/-- the stages of a successful `_patcher` run -/
+theorem patcher_stages {s : Mol} {t : Template} {td : List Nat} {mp : List (Nat × Nat)} {p : Patched}
+    (h : patcher s t td mp = .ok p) :
+    ∃ mx st1 b2 atoms3 b3 b4,
+      getDeleted (keysOf s) td mp = .ok p.deleted ∧ maxKey s.ids = .ok mx ∧
+      replAtomsLoop s t.replAtoms ⟨mp, mx, [], []⟩ = .ok st1 ∧
+      replBondsLoop st1.mapping t.replBonds st1.bonds = .ok b2 ∧
+      remainderAtoms (st1.atoms.map (·.1)) p.deleted s.atoms (st1.atoms, b2) = (atoms3, b3) ∧
+      structBondsLoop (st1.atoms.map (·.1)) p.deleted s.adj b3 = .ok b4 ∧
+      calcLoop (atoms3.map (·.1)) ⟨atoms3, b4⟩ = .ok p.mol ∧
+      p.mapping = st1.mapping ∧ p.patchedIds = st1.atoms.map (·.1) := by
+  unfold patcher at h
+  split at h
+  · simp at h
+  · next deleted hdel =>
+    split at h
+    · simp at h
+    · next mx hmx =>
+      split at h
+      · simp at h
+      · next st1 h1 =>
+        split at h
+        · simp at h
+        · next b2 h2 =>
+          dsimp only at h
+          cases h3 : remainderAtoms (st1.atoms.map (·.1)) deleted s.atoms (st1.atoms, b2) with
+          | mk atoms3 b3 =>
+          rw [h3] at h
+          dsimp only at h
+          split at h
+          · simp at h
+          · next b4 h4 =>
+            split at h
+            · simp at h
+            · next m h5 =>
+              simp only [Except.ok.injEq] at h
+              subst h
+              exact ⟨mx, st1, b2, atoms3, b3, b4, hdel, hmx, h1, h2, h3, h4, h5, rfl, rfl⟩
+
+theorem inv1_init (mx : Nat) (mp : List (Nat × Nat)) : Inv1 mx ⟨mp, mx, [], []⟩ :=
+  ⟨Nat.le_refl _, by simp, rfl, by intro a c; simp [bget, List.lookup], by simp⟩
+
+/-- **frame_atoms**: an atom of the structure that the template does not name (not patched) and that is not removed keeps
+its number, element, isotope, charge, radical state and — when it had one — its implicit hydrogen count.
+(`stereo` is outside this model: the copy carries `none`.) -/
+theorem frame_atoms {s : Mol} {t : Template} {td : List Nat} {mp : List (Nat × Nat)} {p : Patched}
+    (h : patcher s t td mp = .ok p) (hnd : s.ids.Nodup) (n : Nat) (sa : Atom) (hsa : s.atoms.lookup n = some sa)
+    (hnp : n ∉ p.patchedIds) (hnd' : n ∉ p.deleted) :
+    ∃ a, p.mol.atoms.lookup n = some a ∧ a.z = sa.z ∧ a.isotope = sa.isotope ∧ a.charge = sa.charge ∧
+      a.radical = sa.radical ∧ (sa.implH.isSome → a.implH = sa.implH) := by
+  obtain ⟨mx, st1, b2, atoms3, b3, b4, _, _, _, _, h3, _, h5, _, hP⟩ := patcher_stages h
+  obtain ⟨_, _, _, _, hl⟩ := remainderAtoms_spec _ _ _ _ _ _ _ h3 hnd
+  rw [hP] at hnp
+  have h3n : atoms3.lookup n = some (stripAtom sa) := by
+    rw [hl n]
+    have : ¬ (n ∈ st1.atoms.map (·.1) ∨ n ∈ p.deleted) := fun h => h.elim hnp hnd'
+    rw [if_neg this, hsa]
+  obtain ⟨_, _, hat⟩ := calcLoop_spec _ h5
+  obtain ⟨a, ha, hs⟩ := (hat n).2 _ h3n
+  exact ⟨a, ha, hs.1, hs.2.1, hs.2.2.1, hs.2.2.2.1, hs.2.2.2.2.2⟩
+
+/-- a removed atom that is not re-created by the replacement is absent from the product -/
+theorem deleted_atoms_absent {s : Mol} {t : Template} {td : List Nat} {mp : List (Nat × Nat)} {p : Patched}
+    (h : patcher s t td mp = .ok p) (hnd : s.ids.Nodup) (n : Nat) (hd : n ∈ p.deleted) (hnp : n ∉ p.patchedIds) :
+    p.mol.atoms.lookup n = none := by
+  obtain ⟨mx, st1, b2, atoms3, b3, b4, _, _, _, _, h3, _, h5, _, hP⟩ := patcher_stages h
+  obtain ⟨_, _, _, _, hl⟩ := remainderAtoms_spec _ _ _ _ _ _ _ h3 hnd
+  rw [hP] at hnp
+  have h3n : atoms3.lookup n = none := by
+    rw [hl n]
+    simp only [hd, or_true, if_true]
+    exact (lookup_none_iff_not_mem_keys _ _).2 hnp
+  obtain ⟨_, _, hat⟩ := calcLoop_spec _ h5
+  exact (hat n).1 h3n
+
+/-- **product atom set**: the product consists of exactly the patched atoms and the surviving atoms of the structure -/
+theorem product_ids {s : Mol} {t : Template} {td : List Nat} {mp : List (Nat × Nat)} {p : Patched}
+    (h : patcher s t td mp = .ok p) (hnd : s.ids.Nodup) (n : Nat) :
+    n ∈ p.mol.ids ↔ n ∈ p.patchedIds ∨ (n ∈ s.ids ∧ n ∉ p.deleted) := by
+  obtain ⟨mx, st1, b2, atoms3, b3, b4, _, _, _, _, h3, _, h5, _, hP⟩ := patcher_stages h
+  obtain ⟨_, _, _, _, hl⟩ := remainderAtoms_spec _ _ _ _ _ _ _ h3 hnd
+  obtain ⟨_, hkeys, _⟩ := calcLoop_spec _ h5
+  rw [hP]
+  have hmem : n ∈ p.mol.ids ↔ (atoms3.lookup n).isSome := by
+    rw [lookup_isSome_iff_mem_keys]; simp only [Mol.ids, hkeys]
+  rw [hmem, hl n]
+  by_cases hp : n ∈ st1.atoms.map (·.1)
+  · have := (lookup_isSome_iff_mem_keys st1.atoms n).2 hp
+    simp only [hp, true_or, if_true, this]
+  · have hnone := (lookup_none_iff_not_mem_keys st1.atoms n).2 hp
+    by_cases hd : n ∈ p.deleted
+    · simp only [hd, or_true, if_true, hnone, hp, not_true_eq_false, and_false, or_self]
+      simp
+    · have hor : ¬ (n ∈ st1.atoms.map (·.1) ∨ n ∈ p.deleted) := fun h => h.elim hp hd
+      rw [if_neg hor]
+      have hs : n ∈ s.ids ↔ (s.atoms.lookup n).isSome := (lookup_isSome_iff_mem_keys _ _).symm
+      simp only [hp, false_or, hd, not_false_eq_true, and_true, hs]
+      cases s.atoms.lookup n <;> simp [hnone]
+
+/-- **unique_numbers** (dict level): the product's atom numbers are pairwise distinct, and so are the keys of its
+adjacency — for every input, with no hypothesis -/
+theorem product_numbers_unique {s : Mol} {t : Template} {td : List Nat} {mp : List (Nat × Nat)} {p : Patched}
+    (h : patcher s t td mp = .ok p) (hnd : s.ids.Nodup) : p.mol.ids.Nodup := by
+  obtain ⟨mx, st1, b2, atoms3, b3, b4, _, _, h1, _, h3, _, h5, _, _⟩ := patcher_stages h
+  have hnd1 : (st1.atoms.map (·.1)).Nodup := replAtomsLoop_nodup t.replAtoms (st := ⟨mp, mx, [], []⟩) (by simp) h1
+  obtain ⟨_, _, hn3, _, _⟩ := remainderAtoms_spec _ _ _ _ _ _ _ h3 hnd
+  obtain ⟨_, hkeys, _⟩ := calcLoop_spec _ h5
+  simp only [Mol.ids, hkeys]
+  exact hn3 hnd1
+
+/-- **unique_numbers** (freshness): every atom number of the product is a number of the structure or is larger than
+every number of the structure — atoms created by the replacement never collide with existing ones -/
+theorem product_numbers_old_or_fresh {s : Mol} {t : Template} {td : List Nat} {mp : List (Nat × Nat)} {p : Patched}
+    (h : patcher s t td mp = .ok p) (hnd : s.ids.Nodup) (hrn : (t.replAtoms.map (·.1)).Nodup)
+    (hinj : ∀ k1 ∈ t.replAtoms.map (·.1), ∀ k2 ∈ t.replAtoms.map (·.1), ∀ m, mget mp k1 = some m → mget mp k2 = some m → k1 = k2)
+    (n : Nat) (hn : n ∈ p.mol.ids) : n ∈ s.ids ∨ ∀ k ∈ s.ids, k < n := by
+  obtain ⟨mx, st1, b2, atoms3, b3, b4, _, hmx, h1, _, _, _, _, _, hP⟩ := patcher_stages h
+  rcases (product_ids h hnd n).1 hn with hp | hs
+  · obtain ⟨_, _, _, _, hkeys, _⟩ := replAtomsLoop_spec (maxKey_ge hmx) t.replAtoms hrn (inv1_init mx mp) hinj h1
+    rw [hP] at hp
+    rcases hkeys n hp with h1 | h1 | h1
+    · simp at h1
+    · exact Or.inr (fun k hk => Nat.lt_of_le_of_lt (maxKey_ge hmx k hk) h1)
+    · exact Or.inl h1
+  · exact Or.inl hs.1
+
+/-- **named_atoms_as_requested**: every atom of the replacement appears in the product under the number the (extended)
+match gives it, with the requested charge and radical state, the requested element and isotope (for an any-atom `A`:
+element and isotope of the matched atom), and — for a newly created atom whose patch gives a hydrogen count — that count.
+A new atom gets a number larger than every number of the structure.
+Hypotheses: the replacement's atom numbers are distinct (dict keys) and the match is injective on them. -/
+theorem named_atoms_as_requested {s : Mol} {t : Template} {td : List Nat} {mp : List (Nat × Nat)} {p : Patched}
+    (h : patcher s t td mp = .ok p) (hnd : s.ids.Nodup) (hrn : (t.replAtoms.map (·.1)).Nodup)
+    (hinj : ∀ k1 ∈ t.replAtoms.map (·.1), ∀ k2 ∈ t.replAtoms.map (·.1), ∀ m, mget mp k1 = some m → mget mp k2 = some m → k1 = k2)
+    (n : Nat) (ra : RAtom) (hmem : (n, ra) ∈ t.replAtoms) :
+    (∃ m sa a, mget mp n = some m ∧ s.atoms.lookup m = some sa ∧ p.mapping.lookup n = mp.lookup n ∧
+        p.mol.atoms.lookup m = some a ∧ SameButH (requested ra sa false) a) ∨
+    (ra.kind ≠ .any ∧ mget mp n = none ∧ ∃ m a, (∀ k ∈ s.ids, k < m) ∧ p.mapping.lookup n = some m ∧
+        p.mol.atoms.lookup m = some a ∧ SameButH (requested ra default true) a) := by
+  obtain ⟨mx, st1, b2, atoms3, b3, b4, _, hmx, h1, _, h3, _, h5, hM, _⟩ := patcher_stages h
+  obtain ⟨_, _, _, _, _, hplaced⟩ := replAtomsLoop_spec (maxKey_ge hmx) t.replAtoms hrn (inv1_init mx mp) hinj h1
+  obtain ⟨_, _, _, _, hl⟩ := remainderAtoms_spec _ _ _ _ _ _ _ h3 hnd
+  obtain ⟨_, _, hat⟩ := calcLoop_spec _ h5
+  have lift : ∀ m a0, st1.atoms.lookup m = some a0 → ∃ a, p.mol.atoms.lookup m = some a ∧ SameButH a0 a := by
+    intro m a0 hm
+    have hk : m ∈ st1.atoms.map (·.1) := (lookup_isSome_iff_mem_keys _ _).1 (by simp [hm])
+    have : atoms3.lookup m = some a0 := by rw [hl m]; simp only [hk, true_or, if_true]; exact hm
+    exact (hat m).2 a0 this
+  rcases hplaced n ra hmem with ⟨m, sa, hmg, hsa, hmp, hat1⟩ | ⟨hk, hmg, m, hlt, _, hmp, hat1⟩
+  · obtain ⟨a, ha, hs⟩ := lift m _ hat1
+    exact Or.inl ⟨m, sa, a, hmg, hsa, by rw [hM]; exact hmp, ha, hs⟩
+  · obtain ⟨a, ha, hs⟩ := lift m _ hat1
+    exact Or.inr ⟨hk, hmg, m, a, fun k hk' => Nat.lt_of_le_of_lt (maxKey_ge hmx k hk') hlt, by rw [hM]; exact hmp, ha, hs⟩
+
+/-- **frame_bonds**: for an atom `a` of the structure that survives, every bond to an atom `c` such that `a` and `c` are
+not *both* patched is exactly the (stereo-stripped) bond of the structure when `c` survives, and is gone when `c` is
+removed. In particular an unnamed surviving atom keeps all its bonds to surviving atoms and gains none; a named atom keeps
+its bonds to unnamed surviving atoms. Hypothesis: the structure's dicts have unique keys and its adjacency is symmetric
+with the same bond on both sides (`SrcWF`). -/
+theorem frame_bonds {s : Mol} {t : Template} {td : List Nat} {mp : List (Nat × Nat)} {p : Patched}
+    (h : patcher s t td mp = .ok p) (hnd : s.ids.Nodup) (hwf : SrcWF s) (a c : Nat)
+    (hrow : ∃ row, (a, row) ∈ s.adj) (ha : a ∉ p.deleted) (hPP : ¬ (a ∈ p.patchedIds ∧ c ∈ p.patchedIds)) :
+    p.mol.bond? a c = if c ∈ p.deleted then none else (s.bond? a c).map strip := by
+  obtain ⟨mx, st1, b2, atoms3, b3, b4, _, hmx, h1, h2, h3, h4, h5, _, hP⟩ := patcher_stages h
+  rw [hP] at hPP
+  -- phase 1-3: every bond entry so far joins two patched atoms
+  have hrows : ∀ x y, bget st1.bonds x y = none ∧ st1.bonds.map (·.1) = st1.atoms.map (·.1) := by
+    have : ∀ (l : List (Nat × RAtom)) (st st' : PState), replAtomsLoop s l st = .ok st' →
+        ((∀ x y, bget st.bonds x y = none) ∧ st.bonds.map (·.1) = st.atoms.map (·.1)) →
+        ((∀ x y, bget st'.bonds x y = none) ∧ st'.bonds.map (·.1) = st'.atoms.map (·.1)) := by
+      intro l
+      induction l with
+      | nil => intro st st' h hi; simp only [replAtomsLoop] at h; cases h; exact hi
+      | cons e tl ih =>
+        obtain ⟨n, ra⟩ := e
+        intro st st' h hi
+        simp only [replAtomsLoop] at h
+        split at h
+        · simp at h
+        · next stm hm =>
+          apply ih _ _ h
+          rcases replAtomStep_cases hm with ⟨m, sa, _, _, rfl⟩ | ⟨_, _, rfl⟩
+          · exact ⟨fun x y => bget_dictSet_empty _ _ _ _ (hi.1 x y), by simp only [placeAtom, keys_dictSet, hi.2]⟩
+          · exact ⟨fun x y => bget_dictSet_empty _ _ _ _ (hi.1 x y), by simp only [placeAtom, keys_dictSet, hi.2]⟩
+    have := this t.replAtoms ⟨mp, mx, [], []⟩ st1 h1 ⟨by intro x y; simp [bget, List.lookup], rfl⟩
+    intro x y; exact ⟨this.1 x y, this.2⟩
+  have hw1 : Within st1.bonds := by
+    intro x y hs; rw [(hrows x y).1] at hs; simp at hs
+  obtain ⟨hw2, hk2⟩ := replBonds_within st1.mapping t.replBonds h2 hw1
+  obtain ⟨hb3, _, _, _, _⟩ := remainderAtoms_spec _ _ _ _ _ _ _ h3 hnd
+  have hJ : J s (st1.atoms.map (·.1)) p.deleted b3 := by
+    intro x y v hnp hv
+    exfalso
+    have h2' := hw2 x y (hb3 x y (by simp [hv]))
+    rw [hk2, (hrows 0 0).2] at h2'
+    exact hnp h2'
+  have := structBonds_frame hwf _ _ hJ h4 a c ha hPP hrow
+  obtain ⟨hadj, _, _⟩ := calcLoop_spec _ h5
+  rw [bond?_eq_bget, hadj]
+  exact this
+
+/-- the executable well-formedness test the driver applies to every structure (`Mol.WF`: unique keys, adjacency keyed by
+the atoms, symmetric with the same bond on both sides, no loops) implies the hypotheses of the frame theorems, and the
+adjacency `_get_deleted` reads is then undirected -/
+theorem wf_gives_hypotheses (s : Mol) (h : s.WF = true) : s.ids.Nodup ∧ SrcWF s := wf_sound h
+
+/-- the error branches are real: an any-atom of the replacement that the pattern did not match raises `ValueError`,
+an empty structure raises (`max()` of an empty sequence) -/
+theorem patcher_raises_on_unmatched_any :
+    patcher ⟨[(1, {z := 6})], [(1, [])]⟩
+      { pattern := [(1, false)], replIsQuery := true, replAtoms := [(1, {kind := .any}), (2, {kind := .any})],
+        replBonds := [], deleteAtoms := true } [] [(1, 1)]
+      = .error (.valueError "AnyElement doesn't match to pattern") := by rfl
+
+/-! Hypotheses are satisfiable by a non-trivial instance: propan-1-ol-like chain C1–C2–O3, template with any-atom reuse
+(`A:1`), a re-typed existing atom (`S:2`) and a new atom with a hydrogen count (`[C;h3:5]`), match 1↦2, 2↦3:
+the structure is well-formed, the run succeeds, the new atom gets number 4, the unnamed atom 1 is untouched. -/
+def exS : Mol := ⟨[(1, {z := 6, implH := some 3}), (2, {z := 6, implH := some 2}), (3, {z := 8, implH := some 1})],
+  [(1, [(2, {order := 1})]), (2, [(1, {order := 1}), (3, {order := 1})]), (3, [(2, {order := 1})])]⟩
+
+def exT : Template where
+  pattern := [(1, false), (2, false)]
+  replIsQuery := true
+  replAtoms := [(1, {kind := .any}), (2, {kind := .query, z := 16}), (5, {kind := .query, z := 6, hs := [3]})]
+  replBonds := [(1, [(2, [1])]), (2, [(1, [1]), (5, [1])]), (5, [(2, [1])])]
+  deleteAtoms := true
+
+example : exS.WF = true := by decide
+example : (exT.replAtoms.map (·.1)).Nodup := by decide
+example : templateInit exT = .ok [] := by rfl
+example : (match patcher exS exT [] [(1, 2), (2, 3)] with
+    | .ok p => p.mol.ids == [2, 3, 4, 1] && p.patchedIds == [2, 3, 4] && p.mapping == [(1, 2), (2, 3), (5, 4)]
+               && p.mol.atoms.lookup 3 == some {z := 16, implH := some 0}
+               && p.mol.atoms.lookup 4 == some {z := 6, implH := some 3}
+               && p.mol.atoms.lookup 1 == some {z := 6, implH := some 3}
+               && p.mol.bond? 1 2 == some {order := 1} && p.mol.bond? 3 4 == some {order := 1}
+    | .error _ => false) = true := by decide +kernel
 
 end ChythonModel.Props.C16
